@@ -16,6 +16,10 @@ import (
 	"verif/harness/zoo"
 )
 
+type reflectType = reflect.Type
+
+func rtype(v interface{}) reflect.Type { return reflect.TypeOf(v) }
+
 type silent struct{}
 
 func (silent) Info(...interface{})           {}
